@@ -64,10 +64,12 @@ impl<K, V, S> HashMap<K, V, S> {
       self.len = 0;
       if core::mem::needs_drop::<(K, V)>() {
          let mut i = 0;
-         while i < len {
-            unsafe { self.slots[i].assume_init_drop() };
-            i += 1;
-         }
+         repeat_cap!({
+            if i < len {
+               unsafe { self.slots[i].assume_init_drop() };
+               i += 1;
+            }
+         });
       }
    }
 
@@ -89,18 +91,21 @@ impl<K, V, S> HashMap<K, V, S> {
    }
 
    pub fn retain<F: FnMut(&K, &mut V) -> bool>(&mut self, mut f: F) {
+      // every step either advances `i` or shrinks `len`: CAP steps suffice
       let mut i = 0;
-      while i < self.len {
-         let keep = {
-            let (k, v) = self.entry_at_mut(i);
-            f(&*k, v)
-         };
-         if keep {
-            i += 1;
-         } else {
-            self.remove_at(i);
+      repeat_cap!({
+         if i < self.len {
+            let keep = {
+               let (k, v) = self.entry_at_mut(i);
+               f(&*k, v)
+            };
+            if keep {
+               i += 1;
+            } else {
+               self.remove_at(i);
+            }
          }
-      }
+      });
    }
 
    /// removes the entry at `i`, moving the last entry into the hole
@@ -155,12 +160,14 @@ impl<K, V, S> HashMap<K, V, S> {
 impl<K, V, S> HashMap<K, V, S> {
    pub(crate) fn find<Q: ?Sized + Equivalent<K>>(&self, q: &Q) -> Option<usize> {
       let mut i = 0;
-      while i < self.len {
-         if q.equivalent(unsafe { &self.slots[i].assume_init_ref().0 }) {
-            return Some(i);
+      repeat_cap!({
+         if i < self.len {
+            if q.equivalent(unsafe { &self.slots[i].assume_init_ref().0 }) {
+               return Some(i);
+            }
+            i += 1;
          }
-         i += 1;
-      }
+      });
       None
    }
 
@@ -546,10 +553,12 @@ impl<K, V> ExactSizeIterator for Drain<'_, K, V> {}
 impl<K, V> Drop for Drain<'_, K, V> {
    fn drop(&mut self) {
       if core::mem::needs_drop::<(K, V)>() {
-         while self.idx < self.len {
-            unsafe { self.slots[self.idx].assume_init_drop() };
-            self.idx += 1;
-         }
+         repeat_cap!({
+            if self.idx < self.len {
+               unsafe { self.slots[self.idx].assume_init_drop() };
+               self.idx += 1;
+            }
+         });
       }
    }
 }
@@ -563,10 +572,12 @@ pub struct IntoIter<K, V> {
 impl<K, V> Drop for IntoIter<K, V> {
    fn drop(&mut self) {
       if core::mem::needs_drop::<(K, V)>() {
-         while self.idx < self.len {
-            unsafe { self.slots[self.idx].assume_init_drop() };
-            self.idx += 1;
-         }
+         repeat_cap!({
+            if self.idx < self.len {
+               unsafe { self.slots[self.idx].assume_init_drop() };
+               self.idx += 1;
+            }
+         });
       }
    }
 }
@@ -619,12 +630,14 @@ impl<K: Clone, V: Clone, S: Clone> Clone for HashMap<K, V, S> {
    fn clone(&self) -> Self {
       let mut res = Self::with_hasher(self.hash_builder.clone());
       let mut i = 0;
-      while i < self.len {
-         let (k, v) = self.entry_at(i);
-         res.slots[i] = MaybeUninit::new((k.clone(), v.clone()));
-         res.len = i + 1;
-         i += 1;
-      }
+      repeat_cap!({
+         if i < self.len {
+            let (k, v) = self.entry_at(i);
+            res.slots[i] = MaybeUninit::new((k.clone(), v.clone()));
+            res.len = i + 1;
+            i += 1;
+         }
+      });
       res
    }
 }
@@ -638,7 +651,18 @@ impl<K: Eq, V: PartialEq, S> PartialEq for HashMap<K, V, S> {
       if self.len != other.len {
          return false;
       }
-      self.iter().all(|(k, v)| other.get(k).map_or(false, |v2| *v == *v2))
+      let mut i = 0;
+      repeat_cap!({
+         if i < self.len {
+            let (k, v) = self.entry_at(i);
+            match other.get(k) {
+               Some(v2) if *v == *v2 => {},
+               _ => return false,
+            }
+            i += 1;
+         }
+      });
+      true
    }
 }
 impl<K: Eq, V: Eq, S> Eq for HashMap<K, V, S> {}
